@@ -25,7 +25,7 @@ META = {
 def check(run):
     t = run.tier == "thorough"
     run.mc("MC_Struct", consts={"Kind": "mapping", "MaxLen": 9 if t else 8, "StopRule": "fits"}, invariants=["Framing", "LoopBounded"], tag="MC_Struct_mapping_bounds")
-    run.gen("Gen_C04")
+    run.gen("Gen_C04", consts={"Part": "all"})
     run.gen("Gen_MapBodies")
     common.gen_structs(run)
     run.replay_and_judge()
